@@ -398,7 +398,7 @@ class Manager:
             self._timer = self._reactor.callLater(self._ping_interval, timer_expired)
         else:
             # we already have a timer runner, so extend it
-            self._timer.delay(self._ping_interval)
+            self._timer.reset(self._ping_interval)
 
     def _register_subprotocol_factory(self, name, factory):
         """
